@@ -36,7 +36,7 @@ enum Op {
     SDelNodes(Vec<(usize, usize, u64, i64, i64, usize)>),
 }
 #[derive(Clone, Debug)]
-enum Api { Tick(i64), Call(Op), Ingest(Op), Compute, Stream(Vec<Op>, Vec<bool>) }
+enum Api { Tick(i64), Call(Op), Ingest(Op), Compute, Stream(Vec<Op>) }
 #[derive(Clone, Debug)]
 enum Tev { W(Vec<Key>), E(Vec<Key>), Q }
 
@@ -304,7 +304,7 @@ async fn s_nodes(inst: &mut Inst, scn: &mut Scn, room: usize, versions: Vec<(Opt
     let acc_ids: Vec<Uid> = ntis.iter().map(|n| n.id).collect();
     let rej = inst.app.add_nodes(scn.rooms[room], ntis).await.unwrap();
     assert!(rej.is_empty(), "a generated node was refused by add_nodes");
-    for sh in scn.nodes.iter_mut() { if acc_ids.contains(&sh.uid) { let n = &built[&sh.uid]; sh.mdate = n.mdate; sh.room = Some(room); sh.alive = true; } }
+    for sh in scn.nodes.iter_mut() { if acc_ids.contains(&sh.uid) { let n = &built[&sh.uid]; sh.mdate = n.mdate; sh.room = Some(room); sh.alive = true; sh.ent = ent_of(&inst.names, &n._entity); } }
     scn.bump("s_nodes");
     finish_ingest(inst, scn, Op::SNodes { room, ns: sym }).await;
 }
@@ -319,8 +319,10 @@ async fn s_delnodes(inst: &mut Inst, scn: &mut Scn, room: usize, ni: usize, mdat
     finish_ingest(inst, scn, Op::SDelNodes(vec![(room, sh.idx, sh.ent, mdate, date, sig)])).await;
 }
 
-/// a mutation stream of creations on distinct (room, entity) keys; the schedule (which of them were
-/// committed before the stream-end recompute was processed) is read off the stream-end event
+/// a mutation stream of creations on distinct (room, entity) keys. Since a874354 the stream-end recompute
+/// waits for the last reply; the harness still reads off which mutations were committed before it was
+/// processed and records the writes in that order: a late one makes the trace differ from the model
+/// and fail the oracle (regression -> VIOLATION)
 async fn stream(inst: &mut Inst, scn: &mut Scn, targets: Vec<(usize, u64)>) {
     let (send, mut recv) = inst.app.mutation_stream();
     let n = targets.len();
@@ -360,7 +362,7 @@ async fn stream(inst: &mut Inst, scn: &mut Scn, targets: Vec<(usize, u64)>) {
     scn.trace.push(Tev::Q);
     *scn.stats.entry("stream_ops").or_insert(0) += n as u64;
     *scn.stats.entry("stream_late").or_insert(0) += early.iter().filter(|b| !**b).count() as u64;
-    scn.prog.push(Api::Stream(ops, early));
+    scn.prog.push(Api::Stream(ops));
 }
 
 // ---------------------------------------------------------------- emission
@@ -396,7 +398,7 @@ fn api_coq(a: &Api, f: &Fin) -> String {
         Api::Call(o) => format!("ACall ({})", op_coq(o, f)),
         Api::Ingest(o) => format!("AIngest ({})", op_coq(o, f)),
         Api::Compute => "ACompute".to_string(),
-        Api::Stream(os, early) => format!("AStream {} {}", glist(&os.iter().map(|o| op_coq(o, f)).collect::<Vec<_>>()), glist(&early.iter().map(|b| gb(*b)).collect::<Vec<_>>())),
+        Api::Stream(os) => format!("AStream {}", glist(&os.iter().map(|o| op_coq(o, f)).collect::<Vec<_>>())),
     }
 }
 fn enc_trace(tr: &[Tev], f: &Fin) -> Vec<i64> {
@@ -565,6 +567,17 @@ async fn main() {
         let mut scn = new_scn(&mut inst, case_no, 3).await;
         stream(&mut inst, &mut scn, vec![(0, 1), (0, 2), (1, 1), (1, 2), (2, 1), (2, 2)]).await;
         emit_seq(&mut out, &scn, "directed-stream");
+        case_no += 1;
+    }
+    { // directed: a synchronised version under another entity (C09 class 6) is never announced for the day it leaves
+        let mut scn = new_scn(&mut inst, case_no, 1).await;
+        let d0 = scn.t0 + 4000;
+        s_nodes(&mut inst, &mut scn, 0, vec![(None, 1, d0), (None, 1, d0 + 1000)]).await;
+        do_compute(&mut inst, &mut scn).await;
+        tick(&mut scn, BASE + 2 * DAY + 50);
+        s_nodes(&mut inst, &mut scn, 0, vec![(Some(0), 2, BASE + DAY + 7000)]).await;
+        do_compute(&mut inst, &mut scn).await;
+        emit_seq(&mut out, &scn, "directed-unmarked");
         case_no += 1;
     }
     for i in 0..n {
